@@ -306,6 +306,9 @@ func (rn *Runner) runBatch(cases []*Case) []*Result {
 	if len(cases) == 1 {
 		rn.runSolo(mod, results[0], sub)
 		rn.readOutputs(mod, results[0])
+		if rn.AlsoCheck || rn.AlsoShow {
+			rn.runReadOnly(mod, results)
+		}
 		rn.compileAndRun(mod, results)
 		return results
 	}
